@@ -1,55 +1,8 @@
-import Hive.Proofs.SafeMath
-/-! SafeMul and SafeDiv for every width and signedness. -/
+import Hive.Proofs.SafeMathLemmas
+import Hive.Gen.C19_SafeMath
+/-! SafeMul: the definition generated from core/safemath/safe_math.go meets the specification, for every width and signedness. -/
 namespace Hive.GoInt
 open Hive.Gen.SafeMath IntTy
-
-theorem mul_ne_zero_abs (k M : Int) (hk : k ≠ 0) (hM : 0 < M) : M ≤ (k * M).natAbs := by
-  rcases Int.lt_or_le k 1 with h | h
-  · have hk' : k ≤ -1 := by omega
-    have := Int.mul_le_mul_of_nonneg_right hk' (Int.le_of_lt hM)
-    omega
-  · have := Int.mul_le_mul_of_nonneg_right h (Int.le_of_lt hM)
-    omega
-
-/-- The truncated quotient of in-range numbers is in range, except for `MinInt / -1`. -/
-theorem tdiv_inRange_or (T : IntTy) (hb : 0 < T.bits) (r x : Int) (hr : T.InRange r) (hx : T.InRange x)
-    (hx0 : x ≠ 0) : T.InRange (r.tdiv x) ∨ (T.signed = true ∧ r = T.minVal ∧ x = -1) := by
-  obtain ⟨b1, b2, b3, b4, b5, b6⟩ := bounds T hb
-  have hq := Int.natAbs_tdiv_le_natAbs r x
-  unfold InRange at hr hx ⊢
-  cases hs : T.signed with
-  | false =>
-    left
-    have h0 := b6 hs
-    have hq0 : 0 ≤ r.tdiv x := Int.tdiv_nonneg (by omega) (by omega)
-    omega
-  | true =>
-    obtain ⟨e1, e2⟩ := b5 hs
-    by_cases hqH : r.tdiv x = T.half
-    · right
-      have hrH : r = -T.half := by omega
-      have hdiv : (r.tdiv x).natAbs = r.natAbs / x.natAbs := Int.natAbs_tdiv r x
-      have hxa : x.natAbs = 1 := by
-        rcases Nat.lt_or_ge 1 x.natAbs with h2 | h2
-        · have hlt : r.natAbs / x.natAbs < r.natAbs := Nat.div_lt_self (by omega) h2
-          omega
-        · omega
-      have hx1 : x = 1 ∨ x = -1 := by omega
-      rcases hx1 with rfl | rfl
-      · simp at hqH; omega
-      · exact ⟨rfl, by omega, rfl⟩
-    · left; omega
-
-theorem zero_inRange (T : IntTy) (hb : 0 < T.bits) : T.InRange 0 := by
-  obtain ⟨b1, b2, _⟩ := bounds T hb
-  exact ⟨b1, b2⟩
-
-theorem wrap_half (T : IntTy) (hb : 0 < T.bits) (hs : T.signed = true) : T.wrap T.half = -T.half := by
-  obtain ⟨b1, b2, b3, b4, b5, b6⟩ := bounds T hb
-  obtain ⟨e1, e2⟩ := b5 hs
-  have hMH := T.modulus_eq_two_half hb
-  have := T.wrap_shift hb T.half 1 (by unfold InRange; omega)
-  rw [this]; omega
 
 theorem safeMul_exact (T : IntTy) (hb : 0 < T.bits) (x y : Int) (hx : T.InRange x) (hy : T.InRange y) :
     SafeMul T x y = exact T (x * y) := by
@@ -116,38 +69,5 @@ theorem safeMul_exact (T : IntTy) (hb : 0 < T.bits) (x y : Int) (hx : T.InRange 
           have hr' : T.wrap (x * y) < 0 := by omega
           simp [hdq, hx', hy', hr']
         · simp [hdq, heq]
-
-/-- What the property demands of a division. -/
-def exactDiv (T : IntTy) (x y : Int) : Res Int :=
-  if y = 0 then .divzero else exact T (x.tdiv y)
-
-theorem safeDiv_exact (T : IntTy) (hb : 0 < T.bits) (x y : Int) (hx : T.InRange x) (hy : T.InRange y) :
-    SafeDiv T x y = exactDiv T x y := by
-  obtain ⟨b1, b2, b3, b4, b5, b6⟩ := bounds T hb
-  unfold SafeDiv exactDiv exact
-  by_cases hy0 : y = 0
-  · simp [hy0]
-  · simp only [hy0, decide_false, Bool.false_eq_true, if_false]
-    rcases tdiv_inRange_or T hb x y hx hy hy0 with hq | ⟨hs, hxmin, hym1⟩
-    · rw [if_pos hq]
-      have hd : T.div x y = x.tdiv y := T.wrap_eq_self hb _ hq
-      rw [hd]
-      have hneg : ¬ (x < 0 ∧ y < 0 ∧ x.tdiv y < 0) := by
-        intro ⟨h1, h2, h3⟩
-        have := Int.tdiv_nonneg_of_nonpos_of_nonpos (Int.le_of_lt h1) (Int.le_of_lt h2)
-        omega
-      have : (decide (x < 0) && decide (y < 0) && decide (x.tdiv y < 0)) = false := by
-        rcases Decidable.em (x < 0) with h1 | h1 <;> rcases Decidable.em (y < 0) with h2 | h2 <;>
-          rcases Decidable.em (x.tdiv y < 0) with h3 | h3 <;> simp [h1, h2, h3] <;> exact hneg ⟨h1, h2, h3⟩
-      simp [this]
-    · obtain ⟨e1, e2⟩ := b5 hs
-      have hq : x.tdiv y = T.half := by rw [hxmin, hym1, e1]; simp
-      have hnot : ¬ T.InRange (x.tdiv y) := by rw [hq]; unfold InRange; omega
-      rw [if_neg hnot]
-      have hd : T.div x y = -T.half := by unfold IntTy.div; rw [hq]; exact wrap_half T hb hs
-      have hx' : x < 0 := by omega
-      have hy' : y < 0 := by omega
-      have hr' : -T.half < 0 := by omega
-      simp [hd, hx', hy', b4]
 
 end Hive.GoInt
